@@ -698,15 +698,16 @@ func c05Paths(c *Ctx) error {
 		} else {
 			lines = append(lines, "echo -")
 		}
+		lines = append(lines, "spec.c05.guards "+h.HexS(cs.d))
 	}
 	rep, err := h.Eval(lines)
 	if err != nil {
 		return err
 	}
 	for i, cs := range cases {
-		m0, ok0, msg0 := h.DecodeReply(rep[4*i])
-		m15, ok15, msg15 := h.DecodeReply(rep[4*i+1])
-		vd := c05DecodeHolds(rep[4*i+2])
+		m0, ok0, msg0 := h.DecodeReply(rep[5*i])
+		m15, ok15, msg15 := h.DecodeReply(rep[5*i+1])
+		vd := c05DecodeHolds(rep[5*i+2])
 		key := h.Q([]byte(cs.d))
 		nontriv := strings.Join(strings.Fields(strings.ReplaceAll(cs.d, ",", " ")), " ") != cs.direct && len(cs.direct) > 0
 		st.Count(key, nontriv)
@@ -722,6 +723,18 @@ func c05Paths(c *Ctx) error {
 		if _, e := c05Interp(cs.d); e != nil && strings.TrimSpace(cs.d) != "" {
 			c.R.Add(h.Finding{Stage: st.Name, Kind: "diff", What: "Lean spec and Go interpreter disagree on validity of the input: " + e.Error(), Input: key, Hex: h.HexS(cs.d)})
 		}
+		// guards of the Lean theorem path_geometry_partial, measured: scanGuard must hold on every valid input
+		// without trailing-dot numbers (otherwise the guard is wider than documented)
+		if gb, ok, _ := h.DecodeReply(rep[5*i+4]); ok {
+			g := h.DecodeListReply(gb)
+			if len(g) == 2 {
+				sg, nh := string(g[0]) == "1", string(g[1]) == "1"
+				st.Tag(fmt.Sprintf("theorem-guards scanGuard=%v noHazard=%v", sg, nh))
+				if !sg && !strings.Contains(vd.hazards, "traildot") {
+					c.R.Add(h.Finding{Stage: st.Name, Kind: "diff", What: "scanGuard (scanner reads the input as the specification does) fails on a valid input without trailing dot", Input: key, Hex: h.HexS(cs.d)})
+				}
+			}
+		}
 		haz := vd.hazards != ""
 		if haz {
 			st.Tag("trigger=" + strings.Split(vd.hazards, ",")[0])
@@ -736,7 +749,7 @@ func c05Paths(c *Ctx) error {
 			have      bool
 		}{{"ShortenPathData", cs.direct, vd, true}, {"svg.Minify", cs.viaDoc, c05Verdict{}, cs.docOK}}
 		if cs.docOK {
-			outs[1].vd = c05DecodeHolds(rep[4*i+3])
+			outs[1].vd = c05DecodeHolds(rep[5*i+3])
 		}
 		for _, o := range outs {
 			if !o.have {
